@@ -79,9 +79,10 @@ pub fn echo_data() -> impl Strategy<Value = Hex> {
 pub fn ip4_options() -> impl Strategy<Value = Hex> {
     prop_oneof![
         6 => Just(Hex(vec![])),
-        1 => (1usize..=9, any::<[u8; 36]>()).prop_map(|(slots, d)| {
-            // Record Route: type 7, length 3 + 4*slots, pointer 4, data
-            let mut v = vec![7u8, (3 + 4 * slots) as u8, 4];
+        1 => (1usize..=9, any::<[u8; 36]>(), prop_oneof![3 => Just(4u8), 2 => prop::sample::select(vec![0u8, 1, 2, 3, 5, 8, 12, 36, 40, 255]), 1 => any::<u8>()], prop::sample::select(vec![7u8, 7, 7, 131, 137])).prop_map(|(slots, d, ptr, kind)| {
+            // Record Route (7) / loose and strict source route (131, 137): length 3 + 4*slots,
+            // pointer 4 as senders set it — or 0..3, past the end, anything (the peer controls it)
+            let mut v = vec![kind, (3 + 4 * slots) as u8, ptr];
             v.extend_from_slice(&d[..4 * slots]);
             v.push(0);
             while v.len() % 4 != 0 {
@@ -90,10 +91,10 @@ pub fn ip4_options() -> impl Strategy<Value = Hex> {
             v.truncate(40);
             Hex(v)
         }),
-        1 => (1usize..=4, any::<[u8; 32]>(), 0u8..4).prop_map(|(slots, d, flag)| {
-            // Timestamp: type 68, length 4 + 8*slots (flag 1/3) or 4*slots, pointer 5, oflw/flag
+        1 => (1usize..=4, any::<[u8; 32]>(), 0u8..4, prop_oneof![3 => Just(5u8), 2 => prop::sample::select(vec![0u8, 1, 4, 9, 37, 255]), 1 => any::<u8>()], prop_oneof![3 => Just(0u8), 1 => any::<u8>()]).prop_map(|(slots, d, flag, ptr, oflw)| {
+            // Timestamp: type 68, length 4 + 8*slots (flag 1/3) or 4*slots, pointer 5 (or not), oflw/flag
             let per = if flag == 0 { 4 } else { 8 };
-            let mut v = vec![68u8, (4 + per * slots) as u8, 5, flag & 3];
+            let mut v = vec![68u8, (4 + per * slots) as u8, ptr, (oflw & 0xf0) | (flag & 3)];
             v.extend_from_slice(&d[..per * slots]);
             while v.len() % 4 != 0 {
                 v.push(1);
@@ -108,6 +109,25 @@ pub fn ip4_options() -> impl Strategy<Value = Hex> {
 /// TCP options as stacks send them (MSS, window scale, SACK-permitted, timestamps, NOP / EOL
 /// padding, TCP Fast Open cookie, MD5 signature, an unknown kind), padded to a multiple of 4
 pub fn tcp_options() -> impl Strategy<Value = Hex> {
+    // one short option repeated until the 40 bytes of option space are (nearly) full: whatever a
+    // responder derives per option, it derives 10..40 times
+    let repeated = (prop::sample::select(vec![vec![4u8, 2], vec![3u8, 3, 7], vec![1u8], vec![2u8, 4, 5, 180], vec![8u8, 10, 0, 0, 0, 1, 0, 0, 0, 0]]), 4usize..=40).prop_map(|(o, n)| {
+        let mut v: Vec<u8> = Vec::new();
+        for _ in 0..n {
+            if v.len() + o.len() > 40 {
+                break;
+            }
+            v.extend_from_slice(&o);
+        }
+        while v.len() % 4 != 0 {
+            v.push(1);
+        }
+        Hex(v)
+    });
+    prop_oneof![6 => tcp_options_mixed(), 1 => repeated]
+}
+
+fn tcp_options_mixed() -> impl Strategy<Value = Hex> {
     let one = prop_oneof![
         3 => prop_oneof![2 => prop::sample::select(vec![0u16, 1, 536, 1220, 1460, 8960, 65535]), 1 => any::<u16>()].prop_map(|m| vec![2u8, 4, (m >> 8) as u8, m as u8]),
         2 => prop_oneof![3 => 0u8..15, 1 => prop::sample::select(vec![14u8, 15, 255])].prop_map(|w| vec![3u8, 3, w]),
@@ -267,7 +287,7 @@ pub fn stun_change_ports(p: &[u8]) -> Option<(usize, bool)> {
 
 /// C03's relation: the reply's address/port tuple is the mirror image of the request's.
 pub fn mirror_check(cfg: &Cfg, reqf: &[u8], d: &Dec) -> Check {
-    let rv = match view_request(reqf) {
+    let rv = match view_request_ext(reqf) {
         Some(v) => v,
         None => vfail!("a frame shorter than an Ethernet header was answered"),
     };
